@@ -229,7 +229,9 @@ const (
 	wBad                       // a node on the path is not a well-formed trie node
 )
 
-func (s walkStatus) String() string { return [...]string{"found", "absent", "missing-node", "bad-node"}[s] }
+func (s walkStatus) String() string {
+	return [...]string{"found", "absent", "missing-node", "bad-node"}[s]
+}
 
 // walk follows key (32 bytes → 64 nibbles) from root through the supplied node set.
 // depth = number of hash-referenced nodes consumed.
